@@ -191,14 +191,14 @@ func loadFindings(prop string) []sym.Finding {
 // ---------------------------------------------------------------- driver
 
 type runSummary struct {
-	jobs        int
-	results     []*sym.JobResult
-	functions   map[string]bool
-	models      map[string]bool
-	stdGlobals  map[string]bool
-	solver      smt.Stats
-	fatal       []string
-	initSec     float64
+	jobs       int
+	results    []*sym.JobResult
+	functions  map[string]bool
+	models     map[string]bool
+	stdGlobals map[string]bool
+	solver     smt.Stats
+	fatal      []string
+	initSec    float64
 }
 
 func runWorkers(pd *PropDef, jobs []sym.Job, workers int, solver string, timeoutMs int, work string, tag string) *runSummary {
@@ -349,6 +349,9 @@ func cmdRun(args []string) int {
 		jobs = f
 	}
 	rep := newReport(pd, *tier, seed)
+	if pd.PreCheck != nil {
+		rep.incon = append(rep.incon, pd.PreCheck()...)
+	}
 	// conformance vectors (concrete engine runs compared with native runs) ride along in the same workers
 	nconf := pd.ConformanceQuick
 	if *tier == "thorough" {
